@@ -8,7 +8,7 @@ from .. import facts
 from ..cfg import Cfg, bool_edges
 from ..common import arg_fields, arg_roots, def_of, inst_of, method, target_of
 from ..prov import Prov, flatten, field_names
-from ..util import fns_by_key, keyname, place_of, norm, last
+from ..util import fns_by_key, keyname, place_of, norm, last, with_closures
 
 LEVEL = "other"
 
@@ -34,7 +34,7 @@ def chain(f, pv, op, names):
 def run(ck, tier):
     ck.rule("R-C06-id", "WordId::from_word_chars hashes to_lower(normalized(chars)); WordMap::insert derives the id from the entry's own canonical_spelling; MutableDictionary::contains_exact_word normalises its argument and compares with canonical_spelling")
     ck.rule("R-C06-accept", "in SpellCheck::lint a word is skipped only on paths through the true edge of the dialect predicate and of contains_exact_word(word) or contains_exact_word(to_lower(word)) for that same word; every other path pushes a lint whose span is the word token's span")
-    ck.rule("R-C06-dialect", "in cached_suggest_correct_spelling a retain whose predicate compares the entry's dialect with self.dialect lies on every path from the fuzzy search to the cache put and to the return; the lint's suggestions derive from that list")
+    ck.rule("R-C06-dialect", "in cached_suggest_correct_spelling both the list stored in the memo and every returned list are dialect-filtered: retained in place (retain on every path from the fuzzy search) or derived from filter(..), with a predicate that looks up the entry's metadata and compares .dialect with the configured dialect; a cache hit returns what was stored; the lint's suggestions derive from that function")
     ck.not_decided += ["membership of concrete words (the affix expansion of the 130k-word list is data)", "capitalisation variants accepted by to_lower", "what the fuzzy search returns"]
     p = facts.load()
     byk = fns_by_key(p)
@@ -183,6 +183,39 @@ def _base_name(f, pv, op):
     return f.debug_names().get(l)
 
 
+def _is_dialect_pred(p, fn, depth=0, seen=None):
+    """does this body (or a workspace helper / closure it calls, depth <= 3) look up the entry's metadata and
+    compare its `.dialect` with a dialect value?"""
+    seen = set() if seen is None else seen
+    if fn.name in seen or depth > 3:
+        return False
+    seen.add(fn.name)
+    bodies = with_closures(p, fn)
+    s = " ".join(str(c.blocks) for c in bodies).replace('"', "'")
+    cmp_eq = any(def_of(t).endswith("cmp::PartialEq::eq") for c in bodies for _, t in c.calls()) or any(
+        sx["k"] == "assign" and sx["rv"]["k"] == "bin" and sx["rv"]["op"] == "Eq" for c in bodies for b in c.blocks for sx in b["s"])
+    meta = any(def_of(t).endswith("Dictionary::get_word_metadata") for c in bodies for _, t in c.calls())
+    if "'dialect'" in s and cmp_eq and meta:
+        return True
+    for c in bodies:
+        for _, t in c.calls():
+            g = p.fns.get(t["f"].get("inst") or "")
+            if g is not None and g.name.startswith("harper_core::linting::spell_check::") and _is_dialect_pred(p, g, depth + 1, seen):
+                return True
+    return False
+
+
+def _closure_args(p, f, pv, t):
+    out = []
+    for a in t["args"][1:]:
+        for o in pv.trace_operand(a):
+            if o[0] == "agg" and o[1] == "closure":
+                c = p.fns.get(o[2].split(":")[0]) or p.fns.get(o[2])
+                if c is not None:
+                    out.append(c)
+    return out
+
+
 def _dialect(ck, p, byk):
     rule = "R-C06-dialect"
     fs = byk.get("SpellCheck::cached_suggest_correct_spelling")
@@ -193,30 +226,67 @@ def _dialect(ck, p, byk):
     cfg = Cfg(f)
     pv = Prov(f)
     search = [(bi, t) for bi, t in f.calls() if inst_of(t).endswith("spell::suggest_correct_spelling")]
-    retain = [(bi, t) for bi, t in f.calls() if method(t) == "retain"]
     puts = [(bi, t) for bi, t in f.calls() if inst_of(t).startswith("lru::{impl}::") and method(t) == "put"]
-    ok = len(search) >= 1 and len(retain) == 1 and len(puts) == 1
-    detail = "search=%d retain=%d put=%d" % (len(search), len(retain), len(puts))
-    if ok:
-        rb = retain[0][0]
-        good, wit = cfg.every_path_passes(search[0][0], [rb], to=[puts[0][0]] + cfg.exits())
-        clos = None
-        for c in p.closures_of(f.name):
-            s = str(c.blocks)
-            if "dialect" in s:
-                clos = c
-        reads = False
-        if clos is not None:
-            ck.saw(clos)
-            inner = [clos] + p.closures_of(clos.name)
-            s = " ".join(str(c.blocks) for c in inner)
-            cmp_eq = any(def_of(t).endswith("cmp::PartialEq::eq") or (sx["k"] == "assign" and sx["rv"]["k"] == "bin" and sx["rv"]["op"] == "Eq") for c in inner for bi, t in c.calls() for sx in [{"k": "x", "rv": {"k": "", "op": ""}}]) or any(sx["k"] == "assign" and sx["rv"]["k"] == "bin" and sx["rv"]["op"] == "Eq" for c in inner for b in c.blocks for sx in b["s"])
-            meta = any(def_of(t).endswith("Dictionary::get_word_metadata") for c in inner for _, t in c.calls())
-            reads = "'dialect'" in s.replace('"', "'") and cmp_eq and meta
-        same_list = _base_name(f, pv, retain[0][1]["args"][0]) == _put_value_base(f, pv, puts[0][1])
-        ok = good and reads and same_list
-        detail += "; retain lies on every path from the search to put/return=%s; its predicate looks up the entry's metadata and compares .dialect with self.dialect=%s; the filtered list is what gets cached and returned=%s" % (good, reads, same_list)
-    ck.decide(rule, "cached_suggest_correct_spelling", ok, f.span, detail)
+    gets = [(bi, t) for bi, t in f.calls() if inst_of(t).startswith("lru::{impl}::") and method(t) in ("get", "peek", "get_mut")]
+    # dialect filters: retain(pred) in place, or filter(pred) in an iterator chain
+    filters = []
+    for bi, t in f.calls():
+        if method(t) in ("retain", "retain_mut", "filter"):
+            cl = _closure_args(p, f, pv, t)
+            if cl and any(_is_dialect_pred(p, c) for c in cl):
+                filters.append((bi, t))
+                for c in cl:
+                    ck.saw(c)
+    detail = "search=%d dialect filters=%d (%s) put=%d" % (len(search), len(filters), ",".join(sorted({method(t) for _, t in filters})), len(puts))
+    if not (search and puts and filters):
+        ck.refuted(rule, "cached_suggest_correct_spelling", f.span, detail + ": no retain/filter whose predicate looks up the entry's metadata and compares .dialect with the configured dialect")
+    else:
+        def filtered(op, at_bb):
+            """is the value of `op`, used in block at_bb, dialect-filtered?"""
+            roots = arg_roots(f, pv, op)
+            # idiom B: data dependence on a filter(..) call
+            if any(o[0] == "call" and any(o[1] == fb and method(ft) == "filter" for fb, ft in filters) for o in roots):
+                return "derives from filter(pred)"
+            # the cache-hit path hands back what an earlier put stored
+            if any(o[0] == "call" and any(o[1] == gb for gb, _ in gets) for o in roots) and not any(o[0] == "call" and o[1] == search[0][0] for o in roots):
+                return "comes out of the cache"
+            # idiom A: the same list was retained in place on every path from the search
+            base = _value_base(f, pv, op)
+            for fb, ft in filters:
+                if method(ft) in ("retain", "retain_mut") and base is not None and _base_name(f, pv, ft["args"][0]) == base:
+                    ok, _w = cfg.every_path_passes(search[0][0], [fb], to=[at_bb])
+                    if ok:
+                        return "retained in place on every path from the search"
+            return None
+        bad = []
+        why = []
+        for pb, pt in puts:
+            r = filtered(pt["args"][2], pb)
+            why.append("put value %s" % (r or "NOT FILTERED"))
+            if not r:
+                bad.append("the value stored in the suggestion memo")
+        n_ret = 0
+        for bi, b in enumerate(f.blocks):
+            if b["cleanup"]:
+                continue
+            for sx in b["s"]:
+                if sx["k"] == "assign" and sx["lhs"] == [0] and sx["rv"]["k"] == "use":
+                    n_ret += 1
+                    r = filtered(sx["rv"]["op"], bi)
+                    why.append("return value %s" % (r or "NOT FILTERED"))
+                    if not r:
+                        bad.append("a returned list")
+            t = b["t"]
+            if t["k"] == "call" and t.get("dest") == [0]:
+                n_ret += 1
+                r = None
+                for a in t["args"]:
+                    r = r or filtered(a, bi)
+                why.append("return value %s" % (r or "NOT FILTERED"))
+                if not r:
+                    bad.append("a returned list")
+        ok = not bad and n_ret >= 1
+        ck.decide(rule, "cached_suggest_correct_spelling", ok, f.span, detail + "; " + "; ".join(why) + ("" if ok else " — %s bypasses the dialect filter" % ", ".join(sorted(set(bad)) or ["(no return value found)"])))
     # SpellCheck::lint: suggestions derive from that list
     fs = byk.get("<SpellCheck as Linter>::lint")
     if fs:
@@ -228,6 +298,10 @@ def _dialect(ck, p, byk):
             roots = arg_roots(g, gpv, fields["suggestions"])
             ok = any(o[0] == "call" and (o[3] or "").endswith("cached_suggest_correct_spelling") for o in roots)
             ck.decide(rule, "SpellCheck::lint:suggestions", ok, g.span, "Lint.suggestions derive from cached_suggest_correct_spelling(word): %s" % ok)
+
+
+def _value_base(f, pv, op):
+    return _put_value_base(f, pv, {"args": [None, None, op]})
 
 
 def _put_value_base(f, pv, t):
